@@ -74,6 +74,9 @@ type Exec struct {
 	contract *Contract
 	obls     []*Obligation
 	lazy     []*LazyForall
+	goalLazy []*LazyForall // quantified hypotheses of the goal currently being built
+	goalHints []*Term      // instantiation terms offered by using(t, F) in the goal being built
+	cardDone map[string]bool
 	dry      int // >0: no obligations are recorded
 	noObl    int
 	notes    map[string]bool // abstractions that occurred
@@ -90,12 +93,26 @@ func (ex *Exec) note(format string, args ...interface{}) {
 }
 
 func (ex *Exec) addObl(kind, detail string, pos token.Pos, st *State, goal *Term, skolems []*Term) {
-	if ex.dry > 0 || ex.noObl > 0 {
+	if ex.noObl > 0 {
+		// obligations suppressed while evaluating a specification: the hypotheses collected for
+		// the goal being built stay pending
+		return
+	}
+	gl := ex.goalLazy
+	ex.goalLazy = nil
+	gh := ex.goalHints
+	ex.goalHints = nil
+	if ex.dry > 0 {
 		return
 	}
 	if goal == True || st.G == False {
 		return
 	}
+	defer func() {
+		n := len(ex.obls)
+		ex.obls[n-1].Lazy = append(ex.obls[n-1].Lazy, gl...)
+		ex.obls[n-1].Skolems = append(append([]*Term{}, ex.obls[n-1].Skolems...), gh...)
+	}()
 	name := fmt.Sprintf("%s#%s", ex.fn.String(), kind)
 	if detail != "" {
 		name += "@" + detail
@@ -590,6 +607,7 @@ func (ex *Exec) enterLoop(fr *Frame, st *State, li *loopInfo) *State {
 	modCells := map[*Cell]bool{}
 	modHeap := map[string]bool{}
 	allocMod := false
+	epochMod := false
 	for _, bs := range backs {
 		for c, v := range bs.Cells {
 			if pv, ok := probe.Cells[c]; ok && !sameValue(pv, v) {
@@ -597,18 +615,25 @@ func (ex *Exec) enterLoop(fr *Frame, st *State, li *loopInfo) *State {
 			}
 		}
 		for n, t := range bs.Heap {
-			if marks[n] != t {
-				if _, had := marks[n]; had || t != Var(n+"@0", t.Sort) {
-					modHeap[n] = true
-				}
+			if t != probe.heap(n, t.Sort) {
+				modHeap[n] = true
 			}
 		}
 		if bs.Alloc != probe.Alloc {
 			allocMod = true
 		}
+		if bs.Epoch != probe.Epoch {
+			epochMod = true
+		}
 	}
+	_ = marks
 	// 3. havoc
 	out := st.clone()
+	if epochMod {
+		// the body contains a call about which nothing is known: the whole heap may differ
+		ex.havocEverything(out)
+		modHeap = map[string]bool{}
+	}
 	for c := range modCells {
 		v := out.Cells[c]
 		nv, ok := tryHavoc(fmt.Sprintf("%s@L%d", c.Name, ord), v)
@@ -1520,6 +1545,28 @@ func (ex *Exec) mapPresent(st *State, mt *types.Map, r, k *Term) *Term {
 func (ex *Exec) mapCard(st *State, mt *types.Map, r *Term) *Term {
 	cn := mapFam(mt) + "|card"
 	c := Select(st.heap(cn, ArraySort(RefSort, IntSort)), r)
+	// cardinality axioms of this map in this heap: card >= 0; a present key implies card > 0
+	// (instantiated at the keys occurring in a query); card > 0 implies some key is present.
+	ks := keySort(mt.Key())
+	pn := mapFam(mt) + "|present"
+	prow := Select(st.heap(pn, ArraySort(RefSort, ArraySort(ks, BoolSort))), r)
+	key := fmt.Sprintf("card %d/%d", prow.id, c.id)
+	have := false
+	for _, l := range ex.lazy {
+		if l.Desc == key {
+			have = true
+		}
+	}
+	if !have {
+		z := BVi(0, 64)
+		wit := App("mapwitness|"+mapFam(mt), ks, prow)
+		wfSnap := &State{Alloc: st.Alloc}
+		ex.addLazy(&LazyForall{Guard: True, Sort: ks, Desc: key, Uses: []*Term{wit}, Body: func(k *Term) *Term {
+			// keys stored in a map are well-formed values of the key type
+			kwf := Implies(Select(prow, k), wfSnap.wf(valueFromKey(mt.Key(), k)))
+			return And(SLe(z, c), Implies(Select(prow, k), SLt(z, c)), Implies(SLt(z, c), Select(prow, wit)), kwf)
+		}})
+	}
 	return c
 }
 
